@@ -4,7 +4,7 @@ from ..campaign import Result
 from .. import strategies as S
 from ..scenario import iter_specs
 from ..trace import NORMAL
-from ._rt import run_case, shape_labels, RT_ASSUMPTIONS, phase_oracle, context
+from ._rt import library_job_anomalies, run_case, shape_labels, RT_ASSUMPTIONS, phase_oracle, context
 
 ID = 'C08'
 LEVEL = 'exploration'
@@ -63,6 +63,7 @@ def evaluate_one(case):
     res = Result()
     trace, ix = run_case(case, run_on=False)
     shape_labels(case, trace, res)
+    library_job_anomalies(trace, res, 'C08')
     if not ix.terminated():
         res.inconclusive = 'nonterminating'
     hits = phase_oracle(ID, 'timeout', ix, trace, res)
